@@ -1,5 +1,5 @@
 (* The single entry point of the extracted model: one CBOR request in, one CBOR answer out. *)
-From Isomdl Require Import Lib.Bytes Lib.Cbor Api.C20 Api.Session Api.C14 Api.C17 Api.C02 Api.C12 Api.C08 Api.ReaderAuth Api.C18.
+From Isomdl Require Import Lib.Bytes Lib.Cbor Api.C20 Api.Session Api.C14 Api.C17 Api.C02 Api.C12 Api.C08 Api.ReaderAuth Api.C18 Api.C19.
 Open Scope N_scope.
 Local Open Scope string_scope.
 
@@ -15,8 +15,9 @@ Definition api (req : cbor) : cbor :=
     match api_c08 cmd args with Some r => r | None =>
     match api_reader_auth cmd args with Some r => r | None =>
     match api_c18 cmd args with Some r => r | None =>
+    match api_c19 cmd args with Some r => r | None =>
     CArray [ctext "error"; ctext "unknown command or bad arguments"; CText cmd]
-    end end end end end end end end end
+    end end end end end end end end end end
   | _ => CArray [ctext "error"; ctext "request is not [cmd, args...]"]
   end.
 
